@@ -19,14 +19,16 @@ vars == <<l, ev, last, pre>>
 Null == [ev |-> "none"]
 Empty == [x \in {} |-> ""]
 
-RECURSIVE PutObs(_, _, _)
-PutObs(f, obs, i) == IF i > Len(obs) THEN f ELSE PutObs(Put(f, obs[i].id, obs[i].c), obs, i + 1)
-RECURSIVE PutCur(_, _, _)
-PutCur(f, obs, i) == IF i > Len(obs) THEN f
-                     ELSE PutCur(IF obs[i].cur THEN Put(f, obs[i].id, obs[i].c) ELSE f, obs, i + 1)
+\* f overridden by the observations obs (ids are unique within an event); written without recursion:
+\* an End event of the partitions-API mode carries > 100 observations
+ObsAt(obs, x) == obs[CHOOSE i \in 1..Len(obs) : obs[i].id = x].c
+PutObs(f, obs) == LET ids == {obs[i].id : i \in 1..Len(obs)} IN
+                  [x \in (DOMAIN f) \cup ids |-> IF x \in ids THEN ObsAt(obs, x) ELSE f[x]]
+CurObs(obs) == LET ids == {obs[i].id : i \in {j \in 1..Len(obs) : obs[j].cur}} IN
+               [x \in ids |-> ObsAt(obs, x)]
 
 \* `last` is updated one event late, so that an invariant on `ev` sees the observations BEFORE ev
-Absorb(e, f) == IF e.ev = "Step" THEN PutObs(f, e.obs, 1) ELSE IF e.ev = "Reset" THEN Empty ELSE f
+Absorb(e, f) == IF e.ev = "Step" THEN PutObs(f, e.obs) ELSE IF e.ev = "Reset" THEN Empty ELSE f
 
 TraceInit == l = 1 /\ ev = Null /\ last = Empty /\ pre = Empty
 TraceNext ==
@@ -35,7 +37,7 @@ TraceNext ==
      /\ ev' = e
      /\ last' = Absorb(ev, last)
      /\ pre' = IF e.ev = "Reset" THEN Empty
-               ELSE IF e.ev = "Step" /\ e.op = "BeginTxn" THEN PutCur(Empty, e.obs, 1)
+               ELSE IF e.ev = "Step" /\ e.op = "BeginTxn" THEN CurObs(e.obs)
                ELSE pre
 TraceSpec == TraceInit /\ [][TraceNext]_vars
 
